@@ -378,6 +378,23 @@ def FState.moveBody (cfg : Config) (s : FState α) (cmd : Cmd α) (deltaE : α) 
     | none => pure (s, cmds)
   else pure (s, [.orig cmd])
 
+/-- `returnCommands.insert(len(returnCommands) - 1, c)` -/
+def insertBeforeLast {β : Type} (l : List β) (c : β) : List β :=
+  l.dropLast ++ [c] ++ (match l.getLast? with | some x => [x] | none => [])
+
+/-- the `not isMove` branch of `processLinearMoves` -/
+def FState.nonMoveBody (s : FState α) (cmd : Cmd α) (deltaE : α) (priorE : Option α) :
+    Except PyErr (FState α × List (Out α)) := do
+  let lr := s.lastRetraction
+  let (s, cmds) ← s.processNonMove cmd deltaE
+  match lr with
+  | some lr =>
+    if decide (0 < deltaE) && !s.excluding && lr.recoverExcluded && !lr.firmwareRetract then do
+      let e ← s.position.e.nativeToLogical priorE (some true)
+      pure (s, insertBeforeLast cmds (.g92e e))
+    else pure (s, cmds)
+  | none => pure (s, cmds)
+
 /-- `processLinearMoves(cmd, extruderPosition, feedRate, finalZ, *xyPairs)` -/
 def FState.processLinearMoves (cfg : Config) (s : FState α) (cmd : Cmd α)
     (extruderPosition feedRate finalZ : Option α) (xyPairs : List (Option α × Option α)) :
@@ -386,7 +403,7 @@ def FState.processLinearMoves (cfg : Config) (s : FState α) (cmd : Cmd α)
   let priorE := s.position.e.current
   let (s, deltaE, isMove) ← s.applyEZF extruderPosition feedRate finalZ xyPairs
   let (s, cmds) ←
-    if !isMove then s.processNonMove cmd deltaE
+    if !isMove then s.nonMoveBody cmd deltaE priorE
     else s.moveBody cfg cmd deltaE priorE startPosition xyPairs
   if cmds.isEmpty then .ok (s, .ignore) else .ok (s, .list cmds)
 
